@@ -391,3 +391,60 @@ func (w *World) closureInstrs(owner *ssa.Function, f func(ssa.Instruction)) {
 		allInstrsLocal(g, f)
 	}
 }
+
+// valueCase: one way a value can come about, with the branch facts under which it does.
+type valueCase struct {
+	Val   ssa.Value
+	Facts []EdgeFact
+}
+
+// valueCases enumerates the alternatives of v: the edges of a phi (with the facts of each edge) and the returns of a private
+// helper whose result v is (with the facts at each return, which include what guards the helper's only call site).
+func valueCases(v ssa.Value, depth int) []valueCase {
+	v = stripConv(v)
+	if depth > 4 {
+		return []valueCase{{v, nil}}
+	}
+	switch x := v.(type) {
+	case *ssa.Phi:
+		var out []valueCase
+		for i, e := range x.Edges {
+			pred := x.Block().Preds[i]
+			facts := factsAt(pred.Instrs[len(pred.Instrs)-1])
+			if ef, has := edgeFact(pred, x.Block()); has {
+				facts = append(facts, ef)
+			}
+			for _, sub := range valueCases(e, depth+1) {
+				out = append(out, valueCase{sub.Val, append(append([]EdgeFact{}, facts...), sub.Facts...)})
+			}
+		}
+		return out
+	case *ssa.Call, *ssa.Extract:
+		idx := 0
+		var call *ssa.Call
+		if ex, ok := x.(*ssa.Extract); ok {
+			call, _ = ex.Tuple.(*ssa.Call)
+			idx = ex.Index
+		} else {
+			call = x.(*ssa.Call)
+		}
+		if call == nil || crossWorld == nil {
+			break
+		}
+		f := staticCallee(call)
+		if f == nil || !crossWorld.isPrivateHelper(f) {
+			break
+		}
+		var out []valueCase
+		forEachReturnValue(f, idx, func(rv ssa.Value, at ssa.Instruction) {
+			facts := factsAt(at)
+			for _, sub := range valueCases(rv, depth+1) {
+				out = append(out, valueCase{sub.Val, append(append([]EdgeFact{}, facts...), sub.Facts...)})
+			}
+		})
+		if len(out) > 0 {
+			return out
+		}
+	}
+	return []valueCase{{v, nil}}
+}
